@@ -31,13 +31,13 @@ func init() {
 	}
 }
 
-func (t *tr) src(n ast.Node) string {
+func phoutSrc(t *tr, n ast.Node) string {
 	var b bytes.Buffer
 	_ = printer.Fprint(&b, t.pkg.Fset, n)
 	return strings.Join(strings.Fields(b.String()), " ")
 }
 
-func (t *tr) constInt(e ast.Expr) (int64, bool) {
+func phoutConstInt(t *tr, e ast.Expr) (int64, bool) {
 	tv, ok := t.pkg.TypesInfo.Types[e]
 	if !ok || tv.Value == nil {
 		return 0, false
@@ -50,7 +50,7 @@ func (t *tr) constInt(e ast.Expr) (int64, bool) {
 	return i, exact
 }
 
-func findMethod(t *tr, recv, name string) *ast.FuncDecl {
+func phoutFindMethod(t *tr, recv, name string) *ast.FuncDecl {
 	for _, f := range t.pkg.Syntax {
 		for _, d := range f.Decls {
 			fd, ok := d.(*ast.FuncDecl)
@@ -72,16 +72,16 @@ func findMethod(t *tr, recv, name string) *ast.FuncDecl {
 // phoutAtom recognises one `dst = …` statement of appendPhout.
 func phoutAtom(t *tr, st ast.Stmt, rangeVar string) string {
 	as, ok := st.(*ast.AssignStmt)
-	if !ok || as.Tok != token.ASSIGN || len(as.Lhs) != 1 || len(as.Rhs) != 1 || t.src(as.Lhs[0]) != "dst" {
-		return t.fail(st, "appendPhout statement %q", t.src(st))
+	if !ok || as.Tok != token.ASSIGN || len(as.Lhs) != 1 || len(as.Rhs) != 1 || phoutSrc(t, as.Lhs[0]) != "dst" {
+		return t.fail(st, "appendPhout statement %q", phoutSrc(t, st))
 	}
 	call, ok := as.Rhs[0].(*ast.CallExpr)
-	if !ok || len(call.Args) < 2 || t.src(call.Args[0]) != "dst" && t.src(call.Fun) != "appendTimestamp" {
-		return t.fail(st, "appendPhout statement %q", t.src(st))
+	if !ok || len(call.Args) < 2 || phoutSrc(t, call.Args[0]) != "dst" && phoutSrc(t, call.Fun) != "appendTimestamp" {
+		return t.fail(st, "appendPhout statement %q", phoutSrc(t, st))
 	}
-	switch t.src(call.Fun) {
+	switch phoutSrc(t, call.Fun) {
 	case "appendTimestamp":
-		if len(call.Args) == 2 && t.src(call.Args[0]) == "s.timeStamp" && t.src(call.Args[1]) == "dst" {
+		if len(call.Args) == 2 && phoutSrc(t, call.Args[0]) == "s.timeStamp" && phoutSrc(t, call.Args[1]) == "dst" {
 			return ".timestamp"
 		}
 	case "append":
@@ -89,23 +89,23 @@ func phoutAtom(t *tr, st ast.Stmt, rangeVar string) string {
 			break
 		}
 		if call.Ellipsis.IsValid() {
-			if t.src(call.Args[1]) == "s.tags" {
+			if phoutSrc(t, call.Args[1]) == "s.tags" {
 				return ".tags"
 			}
 			break
 		}
-		if v, ok := t.constInt(call.Args[1]); ok && v >= 0 && v < 256 {
+		if v, ok := phoutConstInt(t, call.Args[1]); ok && v >= 0 && v < 256 {
 			return fmt.Sprintf(".byte %d", v)
 		}
 	case "strconv.AppendInt":
 		if len(call.Args) != 3 {
 			break
 		}
-		base, ok := t.constInt(call.Args[2])
+		base, ok := phoutConstInt(t, call.Args[2])
 		if !ok {
 			break
 		}
-		switch t.src(call.Args[1]) {
+		switch phoutSrc(t, call.Args[1]) {
 		case "int64(s.ID())":
 			return fmt.Sprintf(".intId %d", base)
 		case "int64(" + rangeVar + ")":
@@ -114,7 +114,7 @@ func phoutAtom(t *tr, st ast.Stmt, rangeVar string) string {
 			}
 		}
 	}
-	return t.fail(st, "appendPhout statement %q", t.src(st))
+	return t.fail(st, "appendPhout statement %q", phoutSrc(t, st))
 }
 
 func phoutAtoms(t *tr, body *ast.BlockStmt, rangeVar string) string {
@@ -199,7 +199,7 @@ func phoutExtra(t *tr) string {
 			if !ok || fd.Recv == nil || fd.Body == nil || !strings.HasPrefix(fd.Name.Name, "Set") {
 				continue
 			}
-			if !strings.Contains(t.src(fd.Recv.List[0].Type), "Sample") {
+			if !strings.Contains(phoutSrc(t, fd.Recv.List[0].Type), "Sample") {
 				continue
 			}
 			var ks []string
@@ -208,7 +208,7 @@ func phoutExtra(t *tr) string {
 				if !ok || len(c.Args) < 1 {
 					return true
 				}
-				fn := t.src(c.Fun)
+				fn := phoutSrc(t, c.Fun)
 				if fn == "s.set" || fn == "s.setDuration" {
 					if id, ok := c.Args[0].(*ast.Ident); ok && strings.HasPrefix(id.Name, "key") {
 						ks = append(ks, id.Name)
@@ -233,12 +233,12 @@ func phoutExtra(t *tr) string {
 	b.WriteString("]\n\n")
 	// set / get really index the array with the key
 	for name, want := range map[string]string{"set": "{ s.fields[k] = v }", "get": "{ return s.fields[k] }"} {
-		fd := findMethod(t, "Sample", name)
-		if fd == nil || t.src(fd.Body) != want {
+		fd := phoutFindMethod(t, "Sample", name)
+		if fd == nil || phoutSrc(t, fd.Body) != want {
 			t.errs = append(t.errs, "(*Sample)."+name+" is not "+want)
 		}
 	}
-	if fd := findMethod(t, "Sample", "setDuration"); fd == nil || t.src(fd.Body) != "{ s.set(k, int(d.Nanoseconds()/1000)) }" {
+	if fd := phoutFindMethod(t, "Sample", "setDuration"); fd == nil || phoutSrc(t, fd.Body) != "{ s.set(k, int(d.Nanoseconds()/1000)) }" {
 		t.errs = append(t.errs, "(*Sample).setDuration changed")
 	}
 
@@ -246,7 +246,7 @@ func phoutExtra(t *tr) string {
 	if fd := findFunc(t.pkg, "appendPhout"); fd == nil {
 		t.errs = append(t.errs, "func appendPhout not found")
 	} else {
-		if got := t.src(fd.Type); got != "func(s *Sample, dst []byte, id bool) []byte" {
+		if got := phoutSrc(t, fd.Type); got != "func(s *Sample, dst []byte, id bool) []byte" {
 			t.fail(fd, "appendPhout signature %q", got)
 		}
 		var stmts []string
@@ -254,24 +254,24 @@ func phoutExtra(t *tr) string {
 		for i, st := range fd.Body.List {
 			switch s := st.(type) {
 			case *ast.IfStmt:
-				if s.Init != nil || s.Else != nil || t.src(s.Cond) != "id" {
-					stmts = append(stmts, t.fail(s, "if statement %q", t.src(s.Cond)))
+				if s.Init != nil || s.Else != nil || phoutSrc(t, s.Cond) != "id" {
+					stmts = append(stmts, t.fail(s, "if statement %q", phoutSrc(t, s.Cond)))
 					continue
 				}
 				stmts = append(stmts, ".ifId "+phoutAtoms(t, s.Body, ""))
 			case *ast.RangeStmt:
 				v, ok := s.Value.(*ast.Ident)
-				if !ok || t.src(s.Key) != "_" || t.src(s.X) != "s.fields" || s.Tok != token.DEFINE {
+				if !ok || phoutSrc(t, s.Key) != "_" || phoutSrc(t, s.X) != "s.fields" || s.Tok != token.DEFINE {
 					stmts = append(stmts, t.fail(s, "range statement"))
 					continue
 				}
 				stmts = append(stmts, ".forFields "+phoutAtoms(t, s.Body, v.Name))
 			case *ast.ReturnStmt:
-				if i != n-1 || len(s.Results) != 1 || t.src(s.Results[0]) != "dst" {
+				if i != n-1 || len(s.Results) != 1 || phoutSrc(t, s.Results[0]) != "dst" {
 					t.fail(s, "return statement")
 				}
 			default:
-				stmts = append(stmts, ".atom "+phoutAtom(t, st, ""))
+				stmts = append(stmts, ".atom ("+phoutAtom(t, st, "")+")")
 			}
 		}
 		b.WriteString("/-- regenerated from `core/aggregator/netsample/phout.go` func `appendPhout`, statement by statement -/\n")
@@ -283,30 +283,30 @@ func phoutExtra(t *tr) string {
 		t.errs = append(t.errs, "func appendTimestamp not found")
 	} else {
 		l := fd.Body.List
-		ok := len(l) == 6 && t.src(fd.Type) == "func(ts time.Time, dst []byte) []byte"
+		ok := len(l) == 6 && phoutSrc(t, fd.Type) == "func(ts time.Time, dst []byte) []byte"
 		var div, base, off, dot int64 = -1, -1, -1, -1
 		if ok {
 			// dst = strconv.AppendInt(dst, ts.UnixNano()/<div>, <base>)
-			if as, o := l[0].(*ast.AssignStmt); o && len(as.Rhs) == 1 && t.src(as.Lhs[0]) == "dst" {
-				if c, o := as.Rhs[0].(*ast.CallExpr); o && t.src(c.Fun) == "strconv.AppendInt" && len(c.Args) == 3 && t.src(c.Args[0]) == "dst" {
-					if be, o := c.Args[1].(*ast.BinaryExpr); o && be.Op == token.QUO && t.src(be.X) == "ts.UnixNano()" {
-						div, _ = t.constInt(be.Y)
+			if as, o := l[0].(*ast.AssignStmt); o && len(as.Rhs) == 1 && phoutSrc(t, as.Lhs[0]) == "dst" {
+				if c, o := as.Rhs[0].(*ast.CallExpr); o && phoutSrc(t, c.Fun) == "strconv.AppendInt" && len(c.Args) == 3 && phoutSrc(t, c.Args[0]) == "dst" {
+					if be, o := c.Args[1].(*ast.BinaryExpr); o && be.Op == token.QUO && phoutSrc(t, be.X) == "ts.UnixNano()" {
+						div, _ = phoutConstInt(t, be.Y)
 					}
-					base, _ = t.constInt(c.Args[2])
+					base, _ = phoutConstInt(t, c.Args[2])
 				}
 			}
 			// dotIndex := len(dst) - <off>
-			if as, o := l[1].(*ast.AssignStmt); o && as.Tok == token.DEFINE && t.src(as.Lhs[0]) == "dotIndex" {
-				if be, o := as.Rhs[0].(*ast.BinaryExpr); o && be.Op == token.SUB && t.src(be.X) == "len(dst)" {
-					off, _ = t.constInt(be.Y)
+			if as, o := l[1].(*ast.AssignStmt); o && as.Tok == token.DEFINE && phoutSrc(t, as.Lhs[0]) == "dotIndex" {
+				if be, o := as.Rhs[0].(*ast.BinaryExpr); o && be.Op == token.SUB && phoutSrc(t, be.X) == "len(dst)" {
+					off, _ = phoutConstInt(t, be.Y)
 				}
 			}
-			ok = ok && t.src(l[2]) == "dst = append(dst, 0)"
-			ok = ok && t.src(l[3]) == "for i := len(dst) - 1; i > dotIndex; i-- { dst[i] = dst[i-1] }"
-			if as, o := l[4].(*ast.AssignStmt); o && as.Tok == token.ASSIGN && t.src(as.Lhs[0]) == "dst[dotIndex]" {
-				dot, _ = t.constInt(as.Rhs[0])
+			ok = ok && phoutSrc(t, l[2]) == "dst = append(dst, 0)"
+			ok = ok && phoutSrc(t, l[3]) == "for i := len(dst) - 1; i > dotIndex; i-- { dst[i] = dst[i-1] }"
+			if as, o := l[4].(*ast.AssignStmt); o && as.Tok == token.ASSIGN && phoutSrc(t, as.Lhs[0]) == "dst[dotIndex]" {
+				dot, _ = phoutConstInt(t, as.Rhs[0])
 			}
-			ok = ok && t.src(l[5]) == "return dst"
+			ok = ok && phoutSrc(t, l[5]) == "return dst"
 		}
 		if !ok || div <= 0 || base <= 0 || off < 0 || dot < 0 {
 			t.fail(fd, "appendTimestamp has an unrecognised shape")
@@ -318,20 +318,20 @@ func phoutExtra(t *tr) string {
 	}
 
 	// ---- handle: buf = appendPhout(s, buf, config.ID); buf = append(buf, <LF>); Write(buf)
-	if fd := findMethod(t, "phoutAggregator", "handle"); fd == nil {
+	if fd := phoutFindMethod(t, "phoutAggregator", "handle"); fd == nil {
 		t.errs = append(t.errs, "(*phoutAggregator).handle not found")
 	} else {
 		l := fd.Body.List
 		var term int64 = -1
 		ok := len(l) == 6 &&
-			t.src(l[0]) == "a.buf = appendPhout(s, a.buf, a.config.ID)" &&
-			t.src(l[2]) == "_, err := a.writer.Write(a.buf)" &&
-			t.src(l[3]) == "a.buf = a.buf[:0]" &&
-			t.src(l[4]) == "releaseSample(s)" && t.src(l[5]) == "return err"
+			phoutSrc(t, l[0]) == "a.buf = appendPhout(s, a.buf, a.config.ID)" &&
+			phoutSrc(t, l[2]) == "_, err := a.writer.Write(a.buf)" &&
+			phoutSrc(t, l[3]) == "a.buf = a.buf[:0]" &&
+			phoutSrc(t, l[4]) == "releaseSample(s)" && phoutSrc(t, l[5]) == "return err"
 		if ok {
-			if as, o := l[1].(*ast.AssignStmt); o && t.src(as.Lhs[0]) == "a.buf" {
-				if c, o := as.Rhs[0].(*ast.CallExpr); o && t.src(c.Fun) == "append" && len(c.Args) == 2 && t.src(c.Args[0]) == "a.buf" {
-					term, _ = t.constInt(c.Args[1])
+			if as, o := l[1].(*ast.AssignStmt); o && phoutSrc(t, as.Lhs[0]) == "a.buf" {
+				if c, o := as.Rhs[0].(*ast.CallExpr); o && phoutSrc(t, c.Fun) == "append" && len(c.Args) == 2 && phoutSrc(t, c.Args[0]) == "a.buf" {
+					term, _ = phoutConstInt(t, c.Args[1])
 				}
 			}
 		}
